@@ -152,9 +152,16 @@ void harness(void)
 	int ret;
 
 	/* arbitrary well-formed writer state */
+#ifdef USED
+	/* shape concrete (history length, where the file starts), values
+	 * symbolic: the driver enumerates every (USED, FS) with FS <= USED <= NB */
+	used = USED;
+	fs = FS;
+#else
 	used = verif_nd_size("used");
 	fs = verif_nd_size("file_start");
 	VERIF_ASSUME(used <= NB && fs <= used);
+#endif
 	g_fsize = verif_nd_u64("file_size");
 	VERIF_ASSUME(g_fsize <= (sqfs_u64)INT64_MAX);
 	fsize0 = g_fsize;
@@ -290,22 +297,33 @@ void harness(void)
 		}
 	}
 
+#ifdef USED
+#define CV_COUNT (USED - FS)
+#define CV_FS FS
+#else
+#define CV_COUNT 2	/* symbolic shape: everything below is reachable for NB >= 4 */
+#define CV_FS 2
 	VERIF_COVER(count == 0);
-	VERIF_COVER(count > 0 && (flags & SQFS_BLK_DONT_DEDUPLICATE));
-	VERIF_COVER(ret == 0 && count > 0 && out == own &&
-		    !(flags & SQFS_BLK_DONT_DEDUPLICATE));
-#if NB >= 2
-	VERIF_COVER(ret == 0 && count > 0 && out != own);
+#endif
+#if CV_COUNT == 0
+	VERIF_COVER(ret == 0);
+#else
+	VERIF_COVER(flags & SQFS_BLK_DONT_DEDUPLICATE);
+	VERIF_COVER(ret == 0 && out == own && !(flags & SQFS_BLK_DONT_DEDUPLICATE));
+#if CV_FS >= 1
+	VERIF_COVER(ret == 0 && out != own);
 	VERIF_COVER(ret < 0 && g_trunc_calls == 1);
 #if !HASH_ONLY
 	VERIF_COVER(ret < 0 && g_trunc_calls == 0);
 #endif
 #endif
-#if NB >= 3 && !HASH_ONLY
+#if CV_FS >= 2 && !HASH_ONLY
 	VERIF_COVER(g_cmp_calls == 2 && g_cmp_ret == 0);
 	VERIF_COVER(g_cmp_calls == 2 && g_cmp_ret == 1 && ret == 0);
+#endif
+#if CV_FS >= 1 && CV_COUNT >= 2
 	/* match overlapping the file's own blocks */
-	VERIF_COVER(ret == 0 && count == 2 && out != own &&
-		    g_w.wr.blocks.used > fs);
+	VERIF_COVER(ret == 0 && out != own && g_w.wr.blocks.used > fs);
+#endif
 #endif
 }
